@@ -18,7 +18,7 @@ fn spec(t: Tier) -> Spec {
         id: "C14",
         level: "exploration",
         rule: format!(
-            "sandbox of sparse files whose sizes are {{0,1,2,3}} and k*u-1, k*u, k*u+1 for u in {{2,512,2^10,2^20,2^30}}, k<={k}{big}; files with 1..4 hard links; files owned by ids {{0,1,54321,2^31,2^32-2}}; files whose a/m timestamps are k*P-1s, k*P-1ns, k*P, k*P+1ns, k*P+1s old (P in {{60,86400}}, k<={kt}) under an injected clock. For every numeric primary (-size x 7 unit spellings, -links, -inum, -uid, -gid, -atime/-ctime/-mtime, -amin/-cmin/-mmin) the operand list is {{m-1,m,m+1 : m a measured value present in the sandbox}} + {{0, 2^31, 2^63-1, 2^63, 2^64-1}} (+ a zero-padded spelling), and for every (entry, N) the three forms N, +N, -N are evaluated by the real find in one comma-list run; each must equal (measured ==,>,< N) with measured = ceil(size/unit), st_nlink, st_ino, st_uid, st_gid, floor((now-timestamp)/P) computed from lstat() read back from the sandbox; trichotomy and monotonicity in N are also checked directly on the outputs. evaluation = (entry, N, form); non-trivial = |measured-N| <= 1",
+            "sandbox of sparse files whose sizes are {{0,1,2,3}} and k*u-1, k*u, k*u+1 for u in {{2,512,2^10,2^20,2^30}}, k<={k}{big}; files with 1..4 hard links; files owned by ids {{0,1,54321,2^31,2^32-2}}; files whose a/m timestamps are k*P-1s, k*P-1ns, k*P, k*P+1ns, k*P+1s old (P in {{60,86400}}, k<={kt}) under an injected clock. For every numeric primary (-size x 7 unit spellings, -links, -inum, -uid, -gid, -atime/-ctime/-mtime, -amin/-cmin/-mmin) the operand list is {{m-1,m,m+1 : m a measured value present in the sandbox}} + {{0, 2^31, 2^63-1, 2^63, 2^64-1}} (+ a zero-padded spelling), and for every (entry, N) the three forms N, +N, -N are evaluated by the real find in one comma-list run; each must equal (measured ==,>,< N) with measured = ceil(size/unit), st_nlink, st_ino, st_uid, st_gid, floor((now-timestamp)/P) computed from lstat() read back from the sandbox; trichotomy and monotonicity in N are also checked directly on the outputs. A second directory holds entries that are not regular files (directory, fifo, links to a file and to a directory, dangling links whose own length is 1, 511..513, 1024, 1025): -size (c, b, k), -links and -inum are judged on them with and without -L, against stat() resp. lstat(). evaluation = (entry, N, form); non-trivial = |measured-N| <= 1",
             k = t.pick(3, 4),
             big = " plus 2^31+-1, 2^32+-1, 5*2^30+1, 2^40+1, 2^62+1",
             kt = t.pick(2, 5)
@@ -40,6 +40,8 @@ struct Prim {
     unit: &'static str,
     dir: &'static str,
     kind: MKind,
+    /// "" or "-L": the record consulted is lstat() resp. stat() (lstat() for links that do not resolve)
+    pre: &'static str,
 }
 
 #[derive(Clone, Copy, PartialEq)]
@@ -56,14 +58,23 @@ enum MKind {
 fn prims() -> Vec<Prim> {
     let mut v = vec![];
     for (u, bytes) in UNITS {
-        v.push(Prim { name: "-size", unit: u, dir: "s", kind: MKind::Size(bytes) });
+        v.push(Prim { name: "-size", unit: u, dir: "s", kind: MKind::Size(bytes), pre: "" });
     }
-    v.push(Prim { name: "-links", unit: "", dir: "h", kind: MKind::Links });
-    v.push(Prim { name: "-inum", unit: "", dir: "h", kind: MKind::Inum });
-    v.push(Prim { name: "-uid", unit: "", dir: "o", kind: MKind::Uid });
-    v.push(Prim { name: "-gid", unit: "", dir: "o", kind: MKind::Gid });
+    v.push(Prim { name: "-links", unit: "", dir: "h", kind: MKind::Links, pre: "" });
+    v.push(Prim { name: "-inum", unit: "", dir: "h", kind: MKind::Inum, pre: "" });
+    v.push(Prim { name: "-uid", unit: "", dir: "o", kind: MKind::Uid, pre: "" });
+    v.push(Prim { name: "-gid", unit: "", dir: "o", kind: MKind::Gid, pre: "" });
     for (n, w, p) in [("-atime", 0u8, 86400u64), ("-ctime", 1, 86400), ("-mtime", 2, 86400), ("-amin", 0, 60), ("-cmin", 1, 60), ("-mmin", 2, 60)] {
-        v.push(Prim { name: n, unit: "", dir: if p == 60 { "tm" } else { "td" }, kind: MKind::Age(w, p) });
+        v.push(Prim { name: n, unit: "", dir: if p == 60 { "tm" } else { "td" }, kind: MKind::Age(w, p), pre: "" });
+    }
+    // entries that are not regular files (k/: directory, fifo, links to a file / a directory, dangling
+    // links whose own length sits on the 512 boundary), with and without -L
+    for pre in ["", "-L"] {
+        for (u, bytes) in [("c", 1u64), ("b", 512), ("k", 1 << 10)] {
+            v.push(Prim { name: "-size", unit: u, dir: "k", kind: MKind::Size(bytes), pre });
+        }
+        v.push(Prim { name: "-links", unit: "", dir: "k", kind: MKind::Links, pre });
+        v.push(Prim { name: "-inum", unit: "", dir: "k", kind: MKind::Inum, pre });
     }
     v
 }
@@ -133,6 +144,24 @@ fn build(ctx: &mut Ctx) -> Result<(), String> {
     }
     std::fs::create_dir(sbx.join("h/sub")).map_err(e)?;
     std::fs::create_dir(sbx.join("h/sub/x")).map_err(e)?;
+    std::fs::create_dir(sbx.join("k")).map_err(e)?;
+    std::fs::create_dir(sbx.join("k/d")).map_err(e)?;
+    std::fs::write(sbx.join("k/f1025"), vec![b'x'; 1025]).map_err(e)?;
+    std::fs::hard_link(sbx.join("k/f1025"), sbx.join("k/f1025b")).map_err(e)?;
+    std::os::unix::fs::symlink("f1025", sbx.join("k/lf")).map_err(e)?;
+    std::os::unix::fs::symlink("d", sbx.join("k/ld")).map_err(e)?;
+    for n in [1usize, 511, 512, 513, 1024, 1025] {
+        // (components of at most 199 bytes: a longer one makes stat() fail with ENAMETOOLONG, which is
+        // an error to report and not a dangling link)
+        let target: String = (0..n).map(|i| if i % 200 == 199 { '/' } else { 'n' }).collect();
+        std::os::unix::fs::symlink(target, sbx.join(format!("k/dang{n}"))).map_err(e)?;
+    }
+    {
+        let c = std::ffi::CString::new(sbx.join("k/fifo").to_str().unwrap()).unwrap();
+        if unsafe { libc::mkfifo(c.as_ptr(), 0o644) } != 0 {
+            return Err("mkfifo".into());
+        }
+    }
     std::fs::create_dir(sbx.join("o")).map_err(e)?;
     let ids: [u32; 5] = [0, 1, 54321, 1 << 31, u32::MAX - 1];
     for (i, u) in ids.iter().enumerate() {
@@ -197,14 +226,15 @@ struct Job {
     ops: Vec<(u64, String)>,
 }
 
-fn entries_of(dir: &str) -> Vec<(String, St)> {
-    lb::list_tree(dir).into_iter().filter(|(_, d)| *d >= 1).filter_map(|(p, _)| lb::lstat(Path::new(&p)).map(|s| (p, s))).collect()
+fn entries_of(dir: &str, pre: &str) -> Vec<(String, St)> {
+    let follow = if pre == "-L" { 'L' } else { 'P' };
+    lb::list_tree(dir).into_iter().filter(|(_, d)| *d >= 1).filter_map(|(p, d)| lb::record(Path::new(&p), d, follow).map(|s| (p, s))).collect()
 }
 
 fn jobs(tier: Tier) -> Vec<Job> {
     let mut out = vec![];
     for (prim_index, prim) in prims().into_iter().enumerate() {
-        let ents = entries_of(prim.dir);
+        let ents = entries_of(prim.dir, prim.pre);
         let ms: BTreeSet<u64> = ents.iter().filter_map(|(_, s)| measured(prim.kind, s, now_of())).collect();
         let ops = operands(&ms, tier);
         for chunk in ops.chunks(24) {
@@ -237,10 +267,11 @@ fn run_job(ctx: &mut Ctx, job: &Job) -> Vec<(String, String, Value)> {
     let mut bad = vec![];
     let tests = tests_for(job);
     let now = now_of();
-    let ents = entries_of(job.prim.dir);
-    let pname = format!("{}{}", job.prim.name, if job.prim.name == "-size" { format!(" unit '{}'", job.prim.unit) } else { String::new() });
-    let case = |tst: &Test, path: &str| json!({"prop":"C14","dir": job.prim.dir, "test": tst, "path": path, "prim": job.prim.name, "unit": job.prim.unit});
-    let sel = match lb::run_labelled(&[], &[job.prim.dir], &["-mindepth", "1"], &tests, now) {
+    let ents = entries_of(job.prim.dir, job.prim.pre);
+    let pname = format!("{}{}{}", job.prim.name, if job.prim.name == "-size" { format!(" unit '{}'", job.prim.unit) } else { String::new() }, if job.prim.dir == "k" { format!(" on entries that are not regular files{}", if job.prim.pre.is_empty() { "" } else { " under -L" }) } else { String::new() });
+    let case = |tst: &Test, path: &str| json!({"prop":"C14","dir": job.prim.dir, "test": tst, "path": path, "prim": job.prim.name, "unit": job.prim.unit, "pre": job.prim.pre});
+    let pre: Vec<&str> = if job.prim.pre.is_empty() { vec![] } else { vec![job.prim.pre] };
+    let sel = match lb::run_labelled(&pre, &[job.prim.dir], &["-mindepth", "1"], &tests, now) {
         Ok(s) => s,
         Err((why, out, argv)) => {
             let sig = if out.panicked() { format!("C14 panic in {pname}") } else { format!("C14 {pname}: output not attributable") };
@@ -344,15 +375,16 @@ fn replay(case: &Value, ctx: &mut Ctx) -> Option<String> {
     build(ctx).ok()?;
     let s = |k: &str| case[k].as_str().unwrap_or("").to_string();
     let tst: Test = case["test"].as_array()?.iter().map(|v| v.as_str().unwrap_or("").to_string()).collect();
-    let prim = prims().into_iter().find(|p| p.name == s("prim") && p.unit == s("unit"))?;
+    let prim = prims().into_iter().find(|p| p.name == s("prim") && p.unit == s("unit") && p.dir == s("dir") && p.pre == s("pre"))?;
     let op = tst.get(1)?.clone();
     let body = op.trim_start_matches(['+', '-']);
     let digits: String = body.chars().take_while(|c| c.is_ascii_digit()).collect();
     let n: u64 = digits.parse().ok()?;
     let form = if op.starts_with('+') { 1 } else if op.starts_with('-') { 2 } else { 0 };
-    let sel = lb::run_labelled(&[], &[&s("dir")], &["-mindepth", "1"], &[tst.clone()], now_of()).ok()?;
+    let prev: Vec<&str> = if prim.pre.is_empty() { vec![] } else { vec![prim.pre] };
+    let sel = lb::run_labelled(&prev, &[&s("dir")], &["-mindepth", "1"], &[tst.clone()], now_of()).ok()?;
     let path = s("path");
-    let st = lb::lstat(Path::new(&path))?;
+    let st = lb::record(Path::new(&path), 1, if prim.pre == "-L" { 'L' } else { 'P' })?;
     let m = measured(prim.kind, &st, now_of())?;
     let want = [m == n, m > n, m < n][form];
     let got = sel.sel[0].contains(&path);
